@@ -41,7 +41,8 @@ func verifGen(ts bool, text string) (failed bool, msg string) {
 // verifTouched reports whether the output path was created/truncated or written.
 func verifTouched(ev []string) bool {
 	for _, e := range ev {
-		if strings.HasPrefix(e, "create:") || strings.HasPrefix(e, "write:") || e == "template.execute" {
+		if strings.HasPrefix(e, "create:") || strings.HasPrefix(e, "write:") || e == "template.execute" || e == "truncate" ||
+			strings.HasPrefix(e, "open-") || strings.HasPrefix(e, "remove:out.file") || strings.HasPrefix(e, "rename:out.file") {
 			return true
 		}
 	}
@@ -64,7 +65,7 @@ func VerifGenFaults(tsI int) {
 		return
 	}
 	verifCover("succeeded")
-	verifAssert(len(ev) >= 3 && strings.HasPrefix(ev[0], "create:out.file"), "C19: successful generation did not create the output file first")
+	verifAssert(len(ev) >= 3 && strings.HasPrefix(ev[0], "create:out.file"), "C19: successful generation did not start by creating/truncating the output file (an older, longer file would keep its tail)")
 	verifAssert(ev[len(ev)-1] == "close", "C19: output file not closed after a successful generation")
 	if ts {
 		last := ""
